@@ -877,6 +877,35 @@ fn utf8_esc(out: &mut Vec<GSpec>) {
     });
 }
 
+/// Case-insensitive literals that contain punctuation and digits (bytes whose bit-5 twin is not a letter).
+fn utf8_ci(out: &mut Vec<GSpec>) {
+    let bodies = [
+        r#"^"a[""#,
+        r#"^"@_""#,
+        r#"^"1-""#,
+        r#"!(^"[") ~ ANY"#,
+        r#"^"a[" | "a{""#,
+        r#"(^"_" | ^"-")+ ~ ^"a"?"#,
+    ];
+    let mut rules = vec![];
+    for (k, b) in bodies.iter().enumerate() {
+        rules.push(RuleSpec::new(&format!("e{}", k), 'N', b));
+        rules.push(RuleSpec::new(&format!("a{}", k), 'A', b));
+    }
+    assert!(valid(&rules), "utf8_ci");
+    out.push(GSpec {
+        id: "utf8_ci".into(),
+        family: "utf8".into(),
+        quick: true,
+        rules,
+        alphabet: "aA[{@`_\u{7f}1\u{11}-\r".into(),
+        max_len: 3,
+        max_len_thorough: 4,
+        all_forms: true,
+        ..Default::default()
+    });
+}
+
 /// F-tree: recursive and wide grammars (pair trees, traversal helpers, getters).
 fn tree(out: &mut Vec<GSpec>) {
     let rules1 = vec![
@@ -988,9 +1017,12 @@ fn tree(out: &mut Vec<GSpec>) {
         RuleSpec::new("tx", 'X', "\"(\" ~ tx* ~ \")\""),
         RuleSpec::new("a", 'N', "\"a\""),
         RuleSpec::new("l", 'N', "a ~ l?"),
+        // leaves whose text needs care when rendered
+        RuleSpec::new("u", 'N', "\"é\" | \"'\" | \"日\" | \"\\\"\""),
+        RuleSpec::new("us", 'N', "(u | a)+"),
     ];
     assert!(valid(&rules));
-    let mut inputs: Vec<String> = vec![];
+    let mut inputs: Vec<String> = vec!["é".to_string(), "'".to_string(), "é'日a".to_string(), "\"a'".to_string(), "a 日 é".to_string()];
     for d in [1usize, 2, 3, 8, 15, 16, 17, 18, 24] {
         inputs.push(format!("{}{}", "(".repeat(d), ")".repeat(d)));
         inputs.push(format!("{}a{}", "(".repeat(d), ")".repeat(d)));
@@ -1641,6 +1673,7 @@ pub fn all(out: &mut Vec<GSpec>) {
     if want("utf8") {
         utf8(out);
         utf8_esc(out);
+        utf8_ci(out);
     }
     if want("tree") {
         tree(out);
